@@ -118,7 +118,7 @@ class Frame:
 class Sim:
     MAX_STATES = 60000
 
-    def __init__(self, F, site=None, forced=None, depth=3, tainted_by=None, force_all=None, opaque=()):
+    def __init__(self, F, site=None, forced=None, depth=3, tainted_by=None, force_all=None, opaque=(), watch=()):
         """site: (fn name, block) of the call whose result is forced; forced: the value it returns when it fires"""
         self.F = F
         self.site = site
@@ -130,6 +130,7 @@ class Sim:
         self.tainted_by = tainted_by   # optional callable (fn, block, term) -> bool: does this call see the site's result?
         self.force_all = force_all or {}   # callee name -> value returned on EVERY visit (no firing)
         self.opaque = set(opaque)          # crate functions that are not evaluated (their result is unknown)
+        self.watch = set(watch)            # closures whose disappearance into an unmodelled call makes the result undecidable
 
     # ---------------------------------------------------------------- places
     def read(self, fr, key, fn):
@@ -165,11 +166,15 @@ class Sim:
             if base is not None and base[0] == "r":
                 bl, bp = base[1]
                 return self.write(fr, (bl, bp + proj[1:]), val, fn)
-            # a write through an unknown pointer: forget everything whose address was ever taken
-            for k in list(env):
-                if k[0] in self._addr_taken(fn):
-                    del env[k]
-            return
+            if 1 <= l <= fn.nargs and base is None:
+                # through a pointer parameter: the pointee is a region of its own, named by the parameter
+                pass
+            else:
+                # a write through an unknown pointer: forget everything whose address was ever taken
+                for k in list(env):
+                    if k[0] in self._addr_taken(fn):
+                        del env[k]
+                return
         # kill sub-places and tracked super-places (a field of a tracked aggregate is updated in place when simple)
         for k in list(env):
             if k[0] == l and k != key and (k[1][:len(proj)] == proj):
@@ -206,6 +211,8 @@ class Sim:
         pl = op_place(op)
         if pl is not None:
             return self.read(fr, _key(pl), fn)
+        if "fn" in op:
+            return ("fnitem", op.get("fn"))
         if "int" in op:
             ty = op.get("ty", "")
             try:
@@ -291,11 +298,12 @@ class Sim:
         return U
 
     # ---------------------------------------------------------------- running a body
-    def run(self, fn, args, fired=False, depth=None):
-        """args: list of values for locals 1..n.  Returns a set of (fired, return value, places written through parameter refs)"""
+    def run(self, fn, args, fired=False, depth=None, init=None):
+        """args: list of values for locals 1..n; init: {(local, proj): value} for places behind pointer parameters.
+        Returns a set of (fired, return value, places written through parameter refs)"""
         if depth is not None:
             self.depth = depth
-        fr0 = Frame()
+        fr0 = Frame(init)
         for i, v in enumerate(args):
             if v != U:
                 fr0.env[(i + 1, ())] = v
@@ -403,7 +411,7 @@ class Sim:
 
     def _sub(self, depth):
         sub = Sim(self.F, site=self.site, forced=self.forced, depth=depth, tainted_by=self.tainted_by, force_all=self.force_all,
-                  opaque=self.opaque)
+                  opaque=self.opaque, watch=self.watch)
         sub.states = self.states
         return sub
 
@@ -413,12 +421,13 @@ class Sim:
         self.lossy += sub.lossy
 
     def _carries_site(self, vals):
-        """does a value handed to an unmodelled function contain the closure that is / contains the site?"""
-        if self.site is None:
-            return False
+        """does a value handed to an unmodelled function contain a closure that is / contains the site (or is watched)?"""
         for v in vals:
             if v[0] == "c":
-                if v[1] == self.site[0] or self._carries_site(v[2]):
+                if (self.site is not None and v[1] == self.site[0]) or v[1] in self.watch or self._carries_site(v[2]):
+                    return True
+            elif v[0] == "fnitem":
+                if v[1] in self.opaque or v[1] in self.force_all:
                     return True
             elif v[0] == "it":
                 for st in v[1]:
@@ -617,6 +626,17 @@ class Sim:
                         outs.append((fd, d, fr))
                     return outs
                 return None
+        # ---- a closure called directly: Fn::call(&clo, (args,))
+        if c.startswith("core::ops::function::Fn") and short in ("call", "call_mut", "call_once") and len(args) == 2:
+            clo = A[0]
+            tup = A[1]
+            if clo[0] == "c" and tup[0] == "e":
+                n = len([k for k, x in tup[3] if k.isdigit()])
+                cargs = [field_of(tup, str(i)) for i in range(n)]
+                res = self.apply_closure(clo, cargs, fr, fd, depth, fn)
+                if res is not None:
+                    return [(nfd, v, fr) for nfd, v in res]
+            return None
         # ---- `?`
         if short == "branch" and "Try" in c:
             r = A[0] if A else U
@@ -659,7 +679,7 @@ class Sim:
                 return one(enum(OPTION, "None"))
             return [(fd, enum(OPTION, "Some", A[1]), fr), (fd, enum(OPTION, "None"), fr)]
         # ---- iterator pipelines
-        if "Iterator::" in c or c.startswith("core::iter::"):
+        if "Iterator::" in c or "iterator::Iterator" in c or c.startswith("core::iter::"):
             it = A[0] if A else U
             if it[0] != "it":
                 it = ("it", (("src",),))
@@ -698,6 +718,9 @@ class Sim:
                 continue
             if st[0] == "map":
                 clo = st[1]
+                if clo[0] == "fnitem" and clo[1] not in self.opaque and clo[1] not in self.force_all:
+                    cur = {(f1, U) for f1, v in cur}      # a plain function over the elements: nothing about a verdict
+                    continue
                 if clo[0] != "c":
                     return None
                 clo2 = ("c", clo[1], st[2])
